@@ -178,6 +178,15 @@ def run_property(prop: str, tier: str, seed: int, only: str = None, jobs: int = 
               "module": modname,
               "replay_cmd": f"cd {ROOT} && ./check {prop} --replay {path}"}, path)
         ob["replay_file"] = path
+        if not reproduced and not cex_skip and re.search(r"/invariant\.(on-entry|preserved)(#\d+)?$", ob["id"]):
+            # a loop invariant is a device of the proof, not a clause of the property: when it stops being inductive and no failing input
+            # is found on the real code, the proof is broken and the property is UNDECIDED by this obligation (a restructured but equivalent
+            # loop does this).  Clauses taken from the statement (ensures/raises/frame/safety) keep the 'no-failing-input-found' violation.
+            ob["status"] = "undecided"
+            ob["reason"] = ("loop invariant of the proof no longer holds and no failing input was found on the real code (proof broken, property undecided): "
+                            + str(ob.get("reason") or "")[:300])
+            undecided.append(ob)
+            continue
         km = [e for e in known if known_match(e, prop, ob)]
         if km:
             knowns.append((ob, km[0]))
